@@ -530,6 +530,29 @@ def _facts(cond, polarity):
     return [(_norm(text(c)), polarity)]
 
 
+_NEG_CMP = {"<": ">=", "<=": ">", ">": "<=", ">=": "<", "==": "!=", "!=": "=="}
+_FLIP_CMP = {"<": ">", "<=": ">=", ">": "<", ">=": "<=", "==": "==", "!=": "!="}
+
+
+def canon_fact(fact):
+    """One spelling per comparison fact: polarity True, and for == / != the operands in sorted order: ('(a<0)', False) -> ('(a>=0)', True)."""
+    import re as _re
+    t, pol = fact
+    m = _re.match(r"^\((.+?)(<=|>=|==|!=|<|>)(.+)\)$", t)
+    if not m or any(x.count("(") != x.count(")") for x in (m.group(1), m.group(3))):
+        return fact
+    a, op, b = m.group(1), m.group(2), m.group(3)
+    if not pol:
+        op = _NEG_CMP[op]
+    if op in ("==", "!=") and b < a:
+        a, b = b, a
+    return ("(%s%s%s)" % (a, op, b), True)
+
+
+def canon_facts(facts):
+    return sorted(set(canon_fact(f) for f in facts))
+
+
 def _always_leaves(stmt):
     s = stmt
     if s.get("kind") in ("ContinueStmt", "ReturnStmt", "BreakStmt"):
